@@ -33,20 +33,88 @@ def _touches_edge(cls):
     return cls[5] == MAXCOL or cls[6] == MAXROW
 
 
+def _col_name(n):
+    s = ''
+    while n > 0:
+        n, k = divmod(n - 1, 26)
+        s = chr(65 + k) + s
+    return s
+
+
+def _elision_names(cls):
+    """Every name the elision rule can give the rectangle: a coordinate that
+    equals the last column/row (or the first, in whole-row/column forms) is
+    present or dropped; upper case only."""
+    c1, r1, c2, r2 = cls[3:7]
+    o_c1 = {_col_name(c1)} | ({''} if c1 in (1, MAXCOL) else set())
+    o_r1 = {str(r1)} | ({''} if r1 in (1, MAXROW) else set())
+    o_c2 = {_col_name(c2)} | ({''} if c2 == MAXCOL else set())
+    o_r2 = {str(r2)} | ({''} if r2 == MAXROW else set())
+    out = set()
+    for a in o_c1:
+        for b in o_r1:
+            for c in o_c2:
+                for d in o_r2:
+                    out.add('%s%s:%s%s' % (a, b, c, d))
+                    if (c1, r1) == (c2, r2) or a + b == c + d:
+                        out.add(a + b)
+    return out
+
+
+def _split_name(name):
+    if '!' in name:
+        sheet, ref = name.rsplit('!', 1)
+        return sheet, ref
+    return '', name
+
+
 @matcher('c04_last_row_or_column')
 def c04_last_row_or_column(w, v):
-    """The canonical name renders the grid's last column / last row as empty
-    text (XFD1048576 -> '', A1048576 -> 'A', A1:A1048576 -> 'A1:A'), so
-    rectangles touching that edge get several ids, ids that do not re-read,
-    and ids shared with other rectangles."""
-    parts = v['sig'].split(':')
-    if 'edge' not in parts:
-        return False
+    """The canonical name drops a coordinate equal to the grid's last column /
+    last row (XFD1048576 -> '', A1048576 -> 'A', A1:A1048576 -> 'A1:A' but
+    A:A -> 'A:A'; the test is case sensitive, so xfd1 -> 'XFD1' but XFD1 ->
+    '1').  Rectangles touching that edge therefore get several ids, ids that
+    do not re-read, and ids shared with other rectangles.  Accepted only when
+    every name involved is one the elision rule can produce for that
+    rectangle (so e.g. a lower-case or shifted name is still reported)."""
+    kind = v['sig'].split(':')[0]
     case = w.get('case') or {}
-    classes = [case.get(k) for k in ('cls', 'a', 'b') if case.get(k)]
     if case.get('kind') == 'columns':
-        return case.get('hi') == MAXCOL + 1 and case.get('lo') == MAXCOL
-    return bool(classes) and any(_touches_edge(c) for c in classes)
+        return kind == 'column-spelling' and case.get('lo') == MAXCOL
+    classes = [case.get(k) for k in ('cls', 'a', 'b') if case.get(k)]
+    if not classes or not any(_touches_edge(c) for c in classes):
+        return False
+
+    def ok(name, sheet=None):
+        if not isinstance(name, str):
+            return False
+        s, ref = _split_name(name)
+        if sheet is not None and s != sheet:
+            return False
+        return any(ref in _elision_names(c) for c in classes)
+
+    if kind in ('name-differs', 'form-differs'):
+        acc = (w.get('accepted') or [None])[0]
+        if not isinstance(acc, str):
+            return False
+        return ok(acc) and ok(w.get('observed'), _split_name(acc)[0])
+    if kind == 'reread':
+        name = w.get('name')
+        obs = w.get('observed')
+        if not ok(name):
+            return False
+        return obs == 'InvalidRangeName' or isinstance(obs, list) or \
+            (isinstance(obs, str) and ('!' not in obs or
+                                       _split_name(obs)[0] == _split_name(name)[0]))
+    if kind == 'collision':
+        name = w.get('name')
+        s, ref = _split_name(name or '')
+        return len(classes) == 2 and all(
+            ref in _elision_names(c) for c in classes)
+    if kind == 'inputs-mapping':
+        obs = w.get('observed') or []
+        return len(obs) > 1 and all(ok(n) for n in obs)
+    return False
 
 
 @matcher('c04_sheet_name_not_requoted')
